@@ -91,12 +91,14 @@ ENGINES["sys"] = dict(
 
 def serve_owner(line, pid, msg):
     # `svstart` lines are about start-up and the empty chain (C13; nothing answering is also C01's business); the bursts are not C13's
-    return (pid in ("C13", "C01")) if line.startswith("svstart") else pid != "C13"
+    if line.startswith("svbig"):
+        return pid in ("C01", "C14", "C17", "C16")
+    return (pid in ("C13", "C01")) if line.startswith("svstart") else pid not in ("C13", "C14", "C17")
 
 
 ENGINES["serve"] = dict(
-    drv="serve", diverge_owner=serve_owner, starts=("sv6", "sv4", "svstart"), trivial=r"$^", noshrink=True,
-    branches=["serve.start.empty", "serve.start.other", "serve.start.dns", "serve.l2-burst", "serve.sv6.q.procs1", "serve.sv6.l.procs1", "serve.sv6.q.procsn", "serve.sv6.l.procsn", "serve.sv4.q.procs1", "serve.sv4.l.procs1", "serve.sv4.q.procsn", "serve.sv4.l.procsn", "serve.answered"],
+    drv="serve", diverge_owner=serve_owner, starts=("sv6", "sv4", "svstart", "svbig"), trivial=r"$^", noshrink=True,
+    branches=["serve.big6", "serve.big4", "serve.start.empty", "serve.start.other", "serve.start.dns", "serve.l2-burst", "serve.sv6.q.procs1", "serve.sv6.l.procs1", "serve.sv6.q.procsn", "serve.sv6.l.procsn", "serve.sv4.q.procs1", "serve.sv4.l.procs1", "serve.sv4.q.procsn", "serve.sv4.l.procsn", "serve.answered"],
 )
 
 ENGINES["l2frame"] = dict(drv="l2frame", starts=(), trivial=r"=> unparsable$",
@@ -130,14 +132,14 @@ TB_PLUG = "insomniacslk/dhcp option encoders/decoders: mirrored in Lean (enc*/de
 
 PROPS = {
     "C14": dict(
-        engines=[("plug", 4000, 60000), ("sys", 1500, 30000)],
+        engines=[("plug", 4000, 60000), ("sys", 1500, 30000), ("serve", 2, 8)],
         theorems=["C14_v6", "C14_v6_matrix", "C14_v6_matrix_all", "C14_v6_duid_of_setup", "C14_v4", "C14_v4_addr_of_setup", "SYS_C14_drop4", "SYS_C14_drop6", "SYS_C14_stamped4", "SYS_C14_stamped6"],
         modules=["CoreDhcp.Props.C14", "CoreDhcp.Props.System"],
         trusted_base=[TB_PLUG],
         assumptions=["the response handed to server_id carries at most one Server-ID option (true of every chain of built-in plugins)", "strings.ToLower of the DUID type is modelled for ASCII"],
     ),
     "C17": dict(
-        engines=[("plug", 4000, 60000), ("sys", 1500, 30000)],
+        engines=[("plug", 4000, 60000), ("sys", 1500, 30000), ("serve", 2, 8)],
         theorems=["C17_builtin4", "C17_builtin6", "C17_netmask4", "C17_router4", "C17_searchdomains4", "C17_searchdomains6", "C17_staticroute4", "C17_dns4", "C17_dns6", "C17_mtu4",
                   "C17_nbp4", "C17_nbp6", "C17_leasetime4", "C17_ipv6only4", "C17_autoconfigure4", "C17_sleep4", "C17_sleep6", "C17_inrange_mtu", "C17_inrange_seconds", "C17_D17_prefix_refuted",
                   "C11_builtin_preserve_mt", "C12_builtin_preserve_mt", "C11_builtin_preserve_echo_opts", "C12_builtin_preserve_cid", "SYS_C17_delivered4"],
@@ -321,7 +323,7 @@ RULES = {
     "plug": "per built-in plugin: argument vectors from valid, boundary and invalid values of each argument kind and wrong arity, each set up in a fresh process, followed by 6..15 requests (all request-list shapes incl. absent and empty, option 116/54/siaddr/server-id variants, OFFER/ACK/NAK, assigned/unassigned yiaddr, pre-existing options); trivial = a rejected configuration",
     "config": "YAML documents from the configuration grammar (sections present or not, listen scalar/list/absent/non-scalar, every address/zone/port spelling, interface alias, plugin item shapes) plus mutated text; trivial = unreadable document",
     "sys": "chains of 0..7 distinct real built-in plugins (option plugins, server_id, file, range on 2..7 addresses) in any order, arguments from the plug engine's valid/boundary/invalid pools (a rejected set-up leaves the chain shorter), fresh process per chain; 8..27 datagrams each from the plug engine's request battery (request-list shapes, siaddr x option 54 matrix) plus giaddr/ciaddr/broadcast/option 82/61 variants (v4) or all message types, client-id kinds, server-id own/other, ORO shapes, IA_NA, rapid commit, relay nesting with Relay-Reply layers (v6), one in six mutated; the whole reply (every header field and option, destination, port, interface, link-layer flag) is compared with the composed model; trivial = unparsable datagram",
-    "serve": "the real Serve loops on loopback UDP sockets around server_id + dns: 2..24 datagrams (DHCPv6 direct and relayed, all of the supported and some unsupported types, with and without client id, rapid commit, padding options of very different lengths, runts; DHCPv4 relayed via a per-process 127.x.y.z:67, DISCOVER/REQUEST/INFORM/RELEASE/DECLINE, runts of 236..243 bytes) sent one at a time and then as a burst (queued before Serve starts, or while it runs; GOMAXPROCS 1, 2 or 16): every client must get in the burst exactly what it got alone",
+    "serve": "the real Serve loops on loopback UDP sockets around server_id + dns: first datagrams of 700..65 000 bytes one at a time whose right answer hangs on their LAST option (a server identifier naming another server: no reply; a request for the DNS servers: a reply carrying them) - svbig; then 2..24 datagrams (DHCPv6 direct and relayed, all of the supported and some unsupported types, with and without client id, rapid commit, padding options of very different lengths, runts; DHCPv4 relayed via a per-process 127.x.y.z:67, DISCOVER/REQUEST/INFORM/RELEASE/DECLINE, runts of 236..243 bytes) sent one at a time and then as a burst (queued before Serve starts, or while it runs; GOMAXPROCS 1, 2 or 16): every client must get in the burst exactly what it got alone",
     "chain": "random subsets and orders of the real built-in plugins with valid arguments (fresh process per chain), 10..40 well-formed and mutated datagrams each; trivial = dropped datagram",
     "filec": "static lease file under autorefresh, both protocols: 8 goroutines looking one client up as fast as they can while the file is rewritten in place over and over, alternately with two versions that differ in one byte (150 ms per burst, 600 ms in the thorough tier); every answer must be the old or the new file's, all lookups must return, the table must settle on the last version",
     "allocc": "k goroutines allocating / freeing at once on nearly full pools; outcomes judged by linearisability search",
